@@ -48,15 +48,12 @@ func canon(b *strings.Builder, v tla.Value) {
 		b.WriteString("}")
 	case v.IsTuple():
 		b.WriteString("<<")
-		it := v.AsTuple().Iterator()
-		first := true
-		for !it.Done() {
-			_, e := it.Next()
-			if !first {
+		l := v.AsTuple() // indexed access: List.Iterator() allocates a large iterator object
+		for i, n := 0, l.Len(); i < n; i++ {
+			if i > 0 {
 				b.WriteString(", ")
 			}
-			first = false
-			canon(b, e)
+			canon(b, l.Get(i))
 		}
 		b.WriteString(">>")
 	case v.IsFunction():
@@ -104,4 +101,72 @@ func canon(b *strings.Builder, v tla.Value) {
 		b.WriteString("?")
 		b.WriteString(v.String())
 	}
+}
+
+// FastEqual is structural equality of TLA+ values as the runtime builds them (tuples and
+// functions are different kinds, as in tla.Value.Equal) without the iterator allocations of
+// tla.Value.Equal; used on the memo's hot path only, where a false "different" merely costs a
+// real execution.
+func FastEqual(a, b tla.Value) bool {
+	if sameValue(a, b) {
+		return true
+	}
+	switch {
+	case a.Equal(tla.Value{}) || b.Equal(tla.Value{}):
+		return false
+	case a.IsNumber():
+		return b.IsNumber() && a.AsNumber() == b.AsNumber()
+	case a.IsString():
+		return b.IsString() && a.AsString() == b.AsString()
+	case a.IsBool():
+		return b.IsBool() && a.AsBool() == b.AsBool()
+	case a.IsTuple():
+		if !b.IsTuple() {
+			return false
+		}
+		la, lb := a.AsTuple(), b.AsTuple()
+		if la.Len() != lb.Len() {
+			return false
+		}
+		for i, n := 0, la.Len(); i < n; i++ {
+			if !FastEqual(la.Get(i), lb.Get(i)) {
+				return false
+			}
+		}
+		return true
+	case a.IsFunction():
+		if !b.IsFunction() {
+			return false
+		}
+		fa, fb := a.AsFunction(), b.AsFunction()
+		if fa.Len() != fb.Len() {
+			return false
+		}
+		it := fa.Iterator()
+		for !it.Done() {
+			k, va, _ := it.Next()
+			vb, ok := fb.Get(k)
+			if !ok || !FastEqual(va, vb) {
+				return false
+			}
+		}
+		return true
+	case a.IsSet():
+		if !b.IsSet() {
+			return false
+		}
+		sa, sb := a.AsSet(), b.AsSet()
+		if sa.Len() != sb.Len() {
+			return false
+		}
+		it := sa.Iterator()
+		for !it.Done() {
+			k, _, _ := it.Next()
+			if _, ok := sb.Get(k); !ok {
+				return false
+			}
+		}
+		return true
+	}
+	return a.Equal(b)
 }
